@@ -45,6 +45,9 @@ macro_rules! read_hex {
         } else {
             let mut i = 0;
             loop {
+                if $input[i * 2] >= 128 || $input[i * 2 + 1] >= 128 {
+                    break Err($crate::InnerError::BadHexInput.into());
+                }
                 let high = $crate::HEX_INVERSE[$input[i * 2] as usize];
                 if high == 255 {
                     break Err($crate::InnerError::BadHexInput.into());
